@@ -701,10 +701,11 @@ class Discharger:
                 for _ in range(3):
                     if inner[0][0] == "call" and inner[0][2] and inner[0][1].endswith(("Try>::branch", "Option::<T>::ok_or_else", "Option::<T>::ok_or")) and not inner[1]:
                         inner = inner[0][2][0]
-                if inner[0][0] == "call" and inner[0][1].endswith(("<impl [T]>::first", "<impl [T]>::last")) and (d[3] == "Some" or inner is not self.peel(d[1])):
+                if inner[0][0] == "call" and inner[0][1].endswith(("<impl [T]>::first", "<impl [T]>::last", "<impl [T]>::split_first", "<impl [T]>::split_last")) \
+                        and (d[3] == "Some" or inner is not self.peel(d[1])):
                     cont = c03.val_key(self.strip_deref(inner[0][2][0]))
                     if same_key(cont, recv):
-                        return ("D11", "behind first()/last() of the same container being Some")
+                        return ("D11", "behind first()/last()/split_first()/split_last() of the same container being Some")
         return None
 
     def strip_deref(self, ap):
